@@ -111,6 +111,11 @@ def r14_8_memo_inventory(chk):
             own = ("attr", e.base, e.key)
             v = e.value
             reuse = (v[0] == "or" and own in v[1]) or (v[0] == "ite" and own in (v[2], v[3]))
+            # ... or spread over statements, through locals and the instance dict: stored only where the field was found
+            # unset, and the function hands back the field (or the value just stored)
+            if not reuse and any(contains(l, own) for l in e.pc):
+                fsum = chk.terms.summary(f)
+                reuse = any(contains(t, own) or t == v for _, t, _ in fsum.returns)
             per_write = f.cls is not None and any(c.name in PER_WRITE_CLASSES for c in f.cls.mro())
             if reuse and not per_write and contains(v, lambda x: x[0] == "call"):
                 key = f"manual:{f.short}:{e.key}"
